@@ -145,6 +145,14 @@ def run_history(seed, nb, gen_kwargs=None, want=None, record=None):
           mirror.feed(o2.stored)
       except Exception as ex2:
         issue('C04', 'unusable-after-failure', 'Calculate raised %r' % (ex2,), bundle)
+      if any(i['prop'] == 'C04' and i['replay']['bundle'] == bundle for i in issues):
+        # the failed bundle left a trace (a C04 matter): whatever follows in this history is not
+        # attributable to any other property, so the history stops here
+        stats['stopped_after_c04'] += 1
+        return history, issues, stats
+      # failed bundles are part of the replayable history (they must leave no trace, but a replay
+      # has to go through them all the same)
+      history.append(bundle)
       continue
     stats['ok_bundles'] += 1
     gen.after_bundle(e)
